@@ -289,7 +289,7 @@ extern "C" int engineexport_initialize_grid (
       mesh_x = SpeciesFirstToMeshFirstArray(MkVec<double, double>(mesh_state, n_meshes*n_species), n_species, n_meshes);
       for(size_t i=0; i<mesh_x.size(); i++)
         {
-        mesh_x[i] = (mesh_x[i] > 0) ? static_cast<double>(std::poisson_distribution<long long>(mesh_x[i])(rng)) : 0.0; // the distribution requires a strictly positive mean
+        mesh_x[i] = (mesh_x[i] > 0) ? ((mesh_x[i] < 1e15) ? static_cast<double>(std::poisson_distribution<long long>(mesh_x[i])(rng)) : std::floor(mesh_x[i])) : 0.0; // the distribution requires a strictly positive mean, and never returns for a mean beyond the integer range
         }
       }
     else if(CompareStr(init_state_processing, "floor"))
@@ -420,7 +420,7 @@ extern "C" int engineexport_initialize_graph (
       mesh_x = SpeciesFirstToMeshFirstArray(MkVec<double, double>(mesh_state, n_meshes*n_species), n_species, n_meshes);
       for(size_t i=0; i<mesh_x.size(); i++)
         {
-        mesh_x[i] = (mesh_x[i] > 0) ? static_cast<double>(std::poisson_distribution<long long>(mesh_x[i])(rng)) : 0.0; // the distribution requires a strictly positive mean
+        mesh_x[i] = (mesh_x[i] > 0) ? ((mesh_x[i] < 1e15) ? static_cast<double>(std::poisson_distribution<long long>(mesh_x[i])(rng)) : std::floor(mesh_x[i])) : 0.0; // the distribution requires a strictly positive mean, and never returns for a mean beyond the integer range
         }
       }
     else if(CompareStr(init_state_processing, "floor"))
